@@ -137,7 +137,8 @@ MUTANTS = [
     {"id": "arm-bound-off-by-one", "file": CB, "old": "max(col - len_arms, -1)", "new": "max(col - len_arms - 1, -1)", "count": 1},
     {"id": "sliding-window-strides-of-other-array", "file": SAD, "old": "str_disp, str_col, str_row = cost_volume.strides", "new": "str_disp, str_col, str_row = np.empty(cost_volume.shape, dtype=np.float32).strides"},
     {"id": "parity-dependent-arm", "file": CB, "old": "            if np.isfinite(image[col, row]):", "new": "            if np.isfinite(image[col, row]) and row % 2 == 0:", "count": 1},
-    {"id": "crosscheck-floor", "file": VAL, "old": "col_right = np.rint(col_right).astype(int)", "new": "col_right = np.floor(col_right).astype(int)"},
+    {"id": "crosscheck-floor", "file": VAL, "old": 'col_right = col_left + np.rint(dataset_left["disparity_map"].data[row, col_left]).astype(int)', "new": 'col_right = col_left + np.floor(dataset_left["disparity_map"].data[row, col_left]).astype(int)'},
+    {"id": "crosscheck-rounds-the-sum", "file": VAL, "old": 'col_right = col_left + np.rint(dataset_left["disparity_map"].data[row, col_left]).astype(int)', "new": 'col_right = np.rint(col_left + dataset_left["disparity_map"].data[row, col_left]).astype(int)'},
     {"id": "crosscheck-coordinate-columns", "file": VAL, "old": "            col_left = np.arange(nb_col, dtype=np.int64)\n", "new": '            col_left = dataset_left.coords["col"].data.astype(np.int64)\n'},
     {"id": "median-start-zero", "file": MED, "old": "        y_begin = radius\n", "new": "        y_begin = 0\n"},
     {"id": "eq-index-via-named-first", "kind": "equiv", "file": ZN, "old": '        index_col = index_col - img_left.coords["col"].data[0]  # If first col coordinate is not 0\n', "new": '        first_col = img_left.coords["col"].data[0]\n        index_col = index_col - first_col\n'},
